@@ -92,6 +92,22 @@ def known_signatures(prop: str) -> dict:
     return {sig: text for kind, p, sig, text in load_known() if kind == "known" and p == prop}
 
 
+# ------------------------------------------------------------------ early stop across workers
+_VIOL = mp.get_context("fork").Value("i", 0)
+STOP_AFTER = int(os.environ.get("VERIF_STOP_AFTER", "30"))
+
+
+def note_violations(n):
+    if n:
+        with _VIOL.get_lock():
+            _VIOL.value += n
+
+
+def stop_requested():
+    """Once enough violations are on record the remaining runs add nothing: the check fails anyway."""
+    return _VIOL.value >= STOP_AFTER
+
+
 # ------------------------------------------------------------------ per-run watchdog
 class RunTimeout(Exception):
     pass
